@@ -242,7 +242,8 @@ pub fn tcp_seg(src: &IpAddr, dst: &IpAddr, h: &TcpH, payload: &[u8]) -> Vec<u8> 
     v.extend_from_slice(&h.seq.to_be_bytes());
     v.extend_from_slice(&h.ack.to_be_bytes());
     let doff = h.doff.unwrap_or((hl / 4) as u8) & 0x0f;
-    v.push((doff << 4) | ((h.flags >> 8) as u8 & 0x01));
+    // bits 9..11 of `flags` are the three reserved header bits (not flags)
+    v.push((doff << 4) | ((h.flags >> 8) as u8 & 0x0f));
     v.push(h.flags as u8);
     v.extend_from_slice(&h.window.to_be_bytes());
     v.extend_from_slice(&[0, 0]);
